@@ -42,6 +42,8 @@ pub struct Bias {
     pub w_join: u32,
     /// generate the server read-policy configuration (default policy, allow_client_override)
     pub gen_read_config: bool,
+    /// weight of the slow-disk event (persist_entries takes virtual time)
+    pub w_disk_lag: u32,
     /// allow power-loss crashes (only synced data survives); off for every cluster-level property
     pub power_loss: bool,
 }
@@ -84,6 +86,7 @@ impl Default for Bias {
             learners: 0,
             w_join: 0,
             gen_read_config: false,
+            w_disk_lag: 0,
             power_loss: false,
         }
     }
@@ -150,6 +153,7 @@ fn event(b: &Bias) -> BoxedStrategy<Event> {
     add(b.w_restart_cluster, Just(Event::RestartCluster).boxed());
     add(b.w_reset, (any::<u16>(), any::<u16>()).prop_map(|(a, b)| Event::ResetStreams { a, b }).boxed());
     add(b.w_lag, (any::<u16>(), prop_oneof![Just(0u16), 5u16..400]).prop_map(|(node, ms)| Event::ApplyLag { node, ms }).boxed());
+    add(b.w_disk_lag, (any::<u16>(), prop_oneof![1 => Just(0u16), 3 => 20u16..600]).prop_map(|(node, ms)| Event::DiskLag { node, ms }).boxed());
     add(b.w_net, netp(b.lossy).prop_map(Event::Net).boxed());
     add(b.w_join, (0u8..2).prop_map(|idx| Event::JoinLearner { idx }).boxed());
     add(b.w_join / 3, (0u8..8).prop_map(|idx| Event::DuplicateJoin { idx }).boxed());
